@@ -158,11 +158,78 @@ def query(draw):
 
 
 # ---------------------------------------------------------------------------------------------
+# level (b): end-to-end transfers between two MPI ranks (drivers/smpi_pshared_driver.cpp)
+
+DRIVER_B = "smpi_pshared_driver"
+SENDS = ["send", "send", "isend", "ssend", "ssend", "issend", "rsend", "bsend"]
+
+
+@st.composite
+def buffer_b(draw, n):
+    """a buffer able to hold n bytes: plain malloc, a small partially shared layout, or a page-scale one (unit 1024 +-1)"""
+    kind = draw(st.sampled_from(["plain", "small", "small", "pages", "pages"]))
+    if kind == "plain":
+        return {"size": draw(st.integers(max(n, 1), max(n, 1) + 16))}
+    if kind == "small" or n > 20000:
+        size, sh = draw(layout(max_size=max(64, n + 8), min_size=n))
+        return {"size": size, "shared": sh}
+    units = max(2, -(-n // 1024))
+    size, sh = draw(layout(max_size=max(units + 2, 24), min_size=units))
+    size *= 1024
+    cuts = []
+    for c in sh:
+        c = c * 1024 + draw(st.sampled_from([-1, 0, 0, 0, 1]))
+        c = min(max(c, 0), size)
+        if cuts and c <= cuts[-1]:
+            c = cuts[-1] + 1
+        cuts.append(c)
+    if cuts[-1] > size:
+        return {"size": size, "shared": sh and [x * 1024 for x in sh]}
+    return {"size": size, "shared": cuts}
+
+
+@st.composite
+def xfer(draw):
+    n = draw(st.one_of(st.integers(0, 40), st.integers(0, 40), st.integers(1000, 9000), st.sampled_from([4096, 8192, 65535, 65536])))
+    x = {"n": n}
+    for side, okey in (("src", "so"), ("dst", "do")):
+        b = draw(buffer_b(n))
+        size = b["size"]
+        pts = [0, size] + b.get("shared", []) + [p - n for p in b.get("shared", [])]
+        x[side] = b
+        x[okey] = near(draw, pts, 0, max(0, min(size - n, size - 1)))
+    room = x["dst"]["size"] - x["do"] - n
+    x["rn"] = n + (draw(st.integers(0, min(room, 8))) if room > 0 and draw(st.booleans()) else 0)
+    x["send"] = draw(st.sampled_from(SENDS))
+    x["recv"] = draw(st.sampled_from(["recv", "irecv"]))
+    x["first"] = "recv" if x["send"] == "rsend" else draw(st.sampled_from(["recv", "send"]))
+    return x
+
+
+@st.composite
+def case_b(draw):
+    xs = draw(st.lists(xfer(), min_size=1, max_size=5))
+    ns = sorted({x["n"] for x in xs})
+    cfg = []
+    d = draw(st.sampled_from(["default", "0", "0", "n", "n+1"]))
+    if d != "default":
+        nn = draw(st.sampled_from(ns))
+        cfg.append("smpi/send-is-detached-thresh:%d" % (0 if d == "0" else nn if d == "n" else nn + 1))
+    a = draw(st.sampled_from(["default", "default", "n", "n+1", "big"]))
+    if a != "default":
+        nn = draw(st.sampled_from(ns))
+        cfg.append("smpi/async-small-thresh:%d" % (nn if a == "n" else nn + 1 if a == "n+1" else 100000))
+    if draw(st.booleans()):
+        cfg.append("smpi/shared-malloc-blocksize:4096")
+    return {"cfg": cfg, "xfers": xs}
+
+
+# ---------------------------------------------------------------------------------------------
 
 class C35(core.Prop):
     id = "C35"
-    drivers = [DRIVER]
-    sizes = {"quick": 12000, "thorough": 400000}
+    drivers = [DRIVER, DRIVER_B]
+    sizes = {"quick": 10000, "thorough": 400000}
     max_workers = 14
     technique = ("property-based testing (Hypothesis) of the block computations behind smpi_comm_copy_buffer_callback against an "
                  "interval-set reference model; exhaustive enumeration of all layouts/offsets/lengths of allocations <= 8 bytes")
@@ -185,7 +252,9 @@ class C35(core.Prop):
                    "level (b) (end-to-end MPI transfers, send modes) is not covered by this module yet"]
 
     def strategy(self, tier):
-        return st.fixed_dictionaries({"q": st.lists(query(), min_size=1, max_size=6)})
+        a = st.fixed_dictionaries({"q": st.lists(query(), min_size=1, max_size=6)})
+        # level (b) forks a 2-rank simulation per case: ~1/12 of the cases
+        return st.one_of(*([a] * 11 + [case_b()]))
 
     def fixed_cases(self, tier):
         cases = []
@@ -279,6 +348,8 @@ class C35(core.Prop):
         return nt
 
     def check(self, case):
+        if "xfers" in case:
+            return self.check_b(case)
         oc = core.Outcome()
         r = core.serve(DRIVER, case, cpu=20, wall=120)
         if r.wall_exceeded:
@@ -360,6 +431,82 @@ class C35(core.Prop):
                                "%s: SMPI_PARTIAL_SHARED_MALLOC(%d, %s): private blocks registered %s, expected %s" % (what, size, sh, blocks, priv))
             if len(oc.violations) > 4:
                 break
+        oc.labels = sorted(labels)
+        oc.nontrivial = nt
+        return oc
+
+    # ----------------------------------------------------------------------------------------- level (b)
+    @staticmethod
+    def _priv(b):
+        return private_of(b["size"], b["shared"]) if "shared" in b else [[0, b["size"]]]
+
+    def check_b(self, case):
+        oc = core.Outcome()
+        r = core.serve(DRIVER_B, case, cpu=60, wall=300)
+        if r.wall_exceeded:
+            raise core.Inconclusive()
+        outs = r.json_lines()
+        labels = {"level-b"}
+        for c in case["cfg"]:
+            labels.add("b:cfg:" + c.split(":")[0].split("/")[1])
+        recs = {(o["x"], o["side"]): o for o in outs if "x" in o}
+        ended = any("end" in o for o in outs)
+        nt = False
+        for k, x in enumerate(case["xfers"]):
+            n, so, do = x["n"], x["so"], x["do"]
+            sp, dp = self._priv(x["src"]), self._priv(x["dst"])
+            what = ("transfer #%d: %s/%s (first: %s) of %d bytes from offset %d of %s to offset %d of %s, cfg %s"
+                    % (k, x["send"], x["recv"], x["first"], n, so, x["src"], do, x["dst"], case["cfg"]))
+            labels.add("b:send:" + x["send"])
+            labels.add("b:%s->%s" % ("partial" if "shared" in x["src"] else "plain", "partial" if "shared" in x["dst"] else "plain"))
+            labels.add("b:n:" + ("0" if n == 0 else "<=40" if n <= 40 else "<65536" if n < 65536 else ">=65536"))
+            if x["src"]["size"] >= 4096 or x["dst"]["size"] >= 4096:
+                labels.add("b:page-scale-buffer")
+            for vec, off in ((sp, so), (dp, do)):
+                if any(b < off < e for b, e in vec) and len(vec) and vec != [[0, max(e for _, e in vec)]] or \
+                        any(b < off + n < e for b, e in vec if n > 0):
+                    nt = True
+            if any(b < so < e for b, e in sp) and "shared" in x["src"]:
+                labels.add("b:src-block-straddles-start")
+            if any(b < do < e for b, e in dp) and "shared" in x["dst"]:
+                labels.add("b:dst-block-straddles-start")
+            rv, sd = recs.get((k, "recv")), recs.get((k, "send"))
+            if rv is None or sd is None:
+                oc.bad("transfer:crash", "%s: the run stopped (rc=%s, cpu_exceeded=%s); stderr tail: %s" % (what, r.rc, r.cpu_exceeded, r.err[-1200:]))
+                break
+            # expectation in message coordinates
+            ms = ref_shift(sp, so, n)
+            md = ref_shift(dp, do, n)
+            both = inter(ms, md)
+            got_s = norm([[b - do, e - do] for c, b, e in rv["runs"] if c == "S"])
+            missing = minus(both, got_s)
+            if missing:
+                strad = norm(ref_shift([[b, e] for b, e in sp if b < so < e and "shared" in x["src"]], so, n) +
+                             ref_shift([[b, e] for b, e in dp if b < do < e and "shared" in x["dst"]], do, n))
+                sig = "shift:private-lost:block-straddles-message-start" if not minus(missing, strad) else "transfer:private-byte-not-copied"
+                oc.bad(sig, "%s: bytes %s of the message are private on both sides (private on both: %s) but the receive buffer does "
+                       "not hold the sender's data there; receive buffer: %s" % (what, missing, both, rv["runs"]))
+            # private bytes of the receive buffer outside the message must be untouched; inside, private-on-both must not be garbage
+            rpriv_out = minus(dp, [[do, do + n]] if n > 0 else [])
+            got_r = norm([[b, e] for c, b, e in rv["runs"] if c == "R"])
+            touched = minus(rpriv_out, got_r)
+            if touched:
+                oc.bad("transfer:private-byte-outside-message-overwritten", "%s: private bytes %s of the receive buffer lie outside the "
+                       "message but changed; receive buffer: %s" % (what, touched, rv["runs"]))
+            got_x = norm([[b - do, e - do] for c, b, e in rv["runs"] if c == "X" and b >= do and e <= do + n])
+            garbage = inter(both, got_x)
+            if garbage:
+                oc.bad("transfer:wrong-byte", "%s: bytes %s of the message (private on both sides) hold neither the sender's nor the "
+                       "receiver's data; receive buffer: %s" % (what, garbage, rv["runs"]))
+            own = norm([[b, e] for c, b, e in sd["runs"] if c == "O"])
+            hurt = minus(sp, own)
+            if hurt:
+                oc.bad("transfer:sender-buffer-corrupted", "%s: private bytes %s of the send buffer changed; send buffer: %s" % (what, hurt, sd["runs"]))
+            if both:
+                labels.add("b:some-bytes-private-on-both-sides")
+        else:
+            if not ended or r.rc != 0:
+                oc.bad("transfer:crash", "the simulation did not end normally (rc=%s); stderr tail: %s" % (r.rc, r.err[-1200:]))
         oc.labels = sorted(labels)
         oc.nontrivial = nt
         return oc
